@@ -61,10 +61,11 @@ func (r *R) atomsAt(ins ssa.Instruction) []core.Atom {
 // liftedSites searches the helpers of fn (static callees in production code
 // that have exactly one call site in the whole program, up to two levels) for
 // call sites of the callees, registering their context.
-func (r *R) liftedSites(fn *ssa.Function, depth int, outer *siteCtx, want map[string]bool) []ssa.CallInstruction {
+func (r *R) liftedSites(fn *ssa.Function, depth int, outer *siteCtx, want map[string]bool, deep bool) []ssa.CallInstruction {
 	var out []ssa.CallInstruction
 	for _, ci := range core.CallSites(fn) {
-		if _, isGo := ci.(*ssa.Go); isGo {
+		if _, isGo := ci.(*ssa.Go); isGo && !deep {
+			// (with deep, a goroutine started on a helper counts like a goroutine closure)
 			continue
 		}
 		h := ci.Common().StaticCallee()
@@ -104,7 +105,7 @@ func (r *R) liftedSites(fn *ssa.Function, depth int, outer *siteCtx, want map[st
 			}
 		}
 		if depth > 1 {
-			out = append(out, r.liftedSites(h, depth-1, sc, want)...)
+			out = append(out, r.liftedSites(h, depth-1, sc, want, deep)...)
 		}
 	}
 	return out
@@ -193,7 +194,7 @@ func (r *R) sites(fn *ssa.Function, deep bool, callees ...string) []ssa.CallInst
 		for _, c := range callees {
 			want[c] = true
 		}
-		out = r.liftedSites(fn, 2, nil, want)
+		out = r.liftedSites(fn, 2, nil, want, deep)
 	}
 	return out
 }
